@@ -320,7 +320,7 @@ fn gen_cell(r: &mut Rng, ty: &str, d: u8, q: u8, e: Option<u8>, hazard: u64) -> 
 
 fn gen_requests(tier: &str, out: &str) {
     let mut r = Rng::from_env();
-    let (n_tbl, n_imp) = if tier == "thorough" { (30000, 15000) } else { (3200, 1600) };
+    let (n_tbl, n_imp) = if tier == "thorough" { (24000, 12000) } else { (3200, 1600) };
     let delims = [b',', b',', b',', b',', b'|', b';', b'\t', b' ', b'a', b':', b'#', b'~', b'^', b'/', b'=', b'0', b'-'];
     let quotes = [b'"', b'"', b'"', b'"', b'`', b'$', b'\'', b'%', b'@', b'.', b'1'];
     let mut s = String::new();
